@@ -13,7 +13,19 @@ LEVEL = "other"
 THEOREMS = ["Mistune.iterRender_shape", "Mistune.m_sound",
             # handler-level theorems for one construct of the canonical sub-language (ATX headings): the regenerated closing-sequence regex is the expected term,
             # the text computation equals its list-level specification for every string, plain text comes back verbatim, a closing sequence is removed
-            "Mistune.atxTrimRx_lookup", "Mistune.atxText_eq", "Mistune.atxText_eq_ofRuleCfg", "Mistune.atx_plain_verbatim", "Mistune.atx_closing_removed", "Mistune.atx_glued_kept", "Mistune.parseAtxHeading_spec"]
+            "Mistune.atxTrimRx_lookup", "Mistune.atxText_eq", "Mistune.atxText_eq_ofRuleCfg", "Mistune.atx_plain_verbatim", "Mistune.atx_closing_removed", "Mistune.atx_glued_kept", "Mistune.parseAtxHeading_spec",
+            # rule firing for ATX headings and thematic breaks: the rule regexes of block.specification are the expected terms (all configurations), they match exactly on the
+            # lines of the declared shape (sound and complete), and the handler on that match appends the heading / thematic_break token and returns the position after the line
+            "Mistune.atxRule_lookup", "Mistune.thematicRule_lookup", "Mistune.atxGroups_lookup", "Mistune.atxRule_matchAt_hit", "Mistune.atxRule_matchAt_sound", "Mistune.atxRule_matchAt_iff",
+            "Mistune.atxRule_none_seven", "Mistune.atxRule_none_glued", "Mistune.atx_line_token", "Mistune.atx_line_token_cfg",
+            "Mistune.thematicRule_matchAt_hit", "Mistune.thematicRule_matchAt_iff", "Mistune.break_line_token",
+            # the rules tried earlier do not match there: one iteration of BlockParser.parse on such a line; the blank_line rule between two blocks; and the first whole-document
+            # fragment: documents of rendered headings and thematic breaks parse to exactly their tokens (every configuration except all-fenced-colon)
+            "Mistune.fencedRule_lookup", "Mistune.setexRule_lookup", "Mistune.indentRule_lookup", "Mistune.blockRules_prefix", "Mistune.atx_line_step", "Mistune.break_line_step",
+            "Mistune.blankRule_lookup", "Mistune.blankRules_ok", "Mistune.blankRule_matchAt_hit", "Mistune.blank_line_step", "Mistune.leafDoc_loop", "Mistune.leafDoc_blockParse",
+            # … and general line documents: any heading lines, any '*' / '_' break lines, maximal groups of blank lines (what docgen.print_doc writes for headings and rules)
+            "Mistune.blankRule_matchAt_group", "Mistune.blank_group_step", "Mistune.listRule_present", "Mistune.dash_line_step", "Mistune.line_step", "Mistune.leafLines_loop",
+            "Mistune.leafLines_blockParse"]
 
 
 def features(doc_src):
@@ -63,6 +75,55 @@ def oracle(ctx, n, maxdepth=3):
     return cnt, srcs
 
 
+def atx_spec(g2):
+    """the list-level specification `atxSpec` of MistuneProofs/C04Atx.lean, in Python"""
+    t = g2.strip()
+    b = t.rstrip("#")
+    body = b.rstrip()
+    if not b:
+        return ""
+    if len(b) < len(t) and len(body) < len(b):
+        return body
+    return t
+
+
+def leaflines_tie(ctx, n):
+    """the statement of leafLines_blockParse (MistuneProofs/C04LeafDoc.lean) evaluated on the implementation: a document whose lines are ATX heading lines (0-3 blanks, 1-6 '#',
+    then nothing or a blank/tab and anything), thematic-break lines of '-', '_' or '*' (any spacing) and maximal groups of blank lines (the first one empty) parses to exactly one
+    token per item, heading texts being atxSpec(rest of the line)"""
+    from mistune.core import BlockState
+    from mistune.block_parser import BlockParser
+    block = BlockParser()
+    pieces = ["foo", "bar", "a b", "#", "##", " ", "  ", "\t", "\\", "*", "x#", "C#", "\u00a0", "\u3000", "é", "`", "-", "=", ">", "1.", "[a]:", "<b>", "~~~", "|"]
+    docs = 0
+    for i in range(n):
+        src, want, prev_blank = "", [], False
+        for _ in range(ctx.rng.randint(0, 7)):
+            k = ctx.rng.random()
+            if k < 0.5:
+                ind = " " * ctx.rng.randint(0, 3); hashes = "#" * ctx.rng.randint(1, 6)
+                tail = ""
+                if ctx.rng.random() < 0.85:
+                    tail = ctx.rng.choice([" ", "\t", "  "]) + "".join(ctx.rng.choice(pieces) for _ in range(ctx.rng.randint(0, 5)))
+                src += ind + hashes + tail + "\n"
+                want.append({"type": "heading", "text": atx_spec(tail), "attrs": {"level": len(hashes)}, "style": "atx"}); prev_blank = False
+            elif k < 0.75:
+                c = ctx.rng.choice("-_*")
+                body = "".join(c + ctx.rng.choice(["", "", " ", "\t", "  "]) for _ in range(ctx.rng.randint(3, 6)))
+                src += " " * ctx.rng.randint(0, 3) + body + "\n"
+                want.append({"type": "thematic_break"}); prev_blank = False
+            elif not prev_blank:
+                src += "\n" + "".join(ctx.rng.choice(["", " ", "\t", " \x0b", "\x0c "]) + "\n" for _ in range(ctx.rng.randint(0, 2)))
+                want.append({"type": "blank_line"}); prev_blank = True
+        st = BlockState(); st.process(src)
+        block.parse(st)
+        docs += 1
+        if st.tokens != want:
+            ctx.fail("leaflines", "the line document %r parses to %r, expected %r" % (src, st.tokens, want), {"doc": src})
+    ctx.cov["leaf_line_documents_checked"] = docs
+    return docs
+
+
 KNOWN_EXAMPLES = [("[a \\` b](u) `c d`\n", "precedence-scan-ignores-escape")]
 
 
@@ -86,6 +147,7 @@ def run(ctx):
     replay_known(ctx)
     n, srcs = oracle(ctx, 2500 if ctx.quick() else 40000, 3 if ctx.quick() else 4)
     common.model_tie(ctx, srcs, "core", "doc", limit=(900 if ctx.quick() else 9000))
+    n += leaflines_tie(ctx, 400 if ctx.quick() else 8000)
     if ctx.broken and not [f for f in ctx.failures if not ctx.is_known(f["signature"])]:
         ctx.notes.append("search mode entered")
         n2, _ = oracle(ctx, 30000, 4)
